@@ -158,10 +158,18 @@ func roundtrip(rd *enum.FragReader, v value.Value, dl delivery) (clause, detail 
 	return "", "", enc
 }
 
-// firstFailure runs all deliveries and returns the first failing one.
-func firstFailure(rd *enum.FragReader, v value.Value, fam *int64, dls []delivery) (clause, detail string, enc []byte, dl delivery) {
+// firstFailure runs all deliveries and returns the first failing one. Each
+// decode is guarded against non-termination.
+func firstFailure(g *enum.Guard, rd *enum.FragReader, v value.Value, fam *int64, dls []delivery) (clause, detail string, enc []byte, dl delivery) {
 	for _, d := range dls {
+		d := d
+		g.Begin("newvalue/hang/"+sigClass(v), func() (string, interface{}) {
+			e, _ := encodeValue(v)
+			return fmt.Sprintf("value.NewValue on the encoding %s of a value of signature %q (%s)", hexs(e), v.Signature(), d),
+				replayOf("value.NewValue", v, e, d, "hang", "NewValue did not return")
+		}, func() { roundtrip(enum.NewFragReader(nil, nil, 0, 0), v, d) })
 		c, det, e := roundtrip(rd, v, d)
+		g.End()
 		run.Eval(fam, 1)
 		if c != "" {
 			return c, det, e, d
@@ -169,6 +177,14 @@ func firstFailure(rd *enum.FragReader, v value.Value, fam *int64, dls []delivery
 		enc = e
 	}
 	return "", "", enc, delivery{}
+}
+
+// sigClass abstracts the signature of a value for the hang fingerprint.
+func sigClass(v value.Value) string {
+	if t, err := refmodel.ParseSig(v.Signature()); err == nil {
+		return t.Shape()
+	}
+	return "unparsable-signature"
 }
 
 // deliveryDetail says whether a failure depends on the delivery: it is
@@ -215,11 +231,12 @@ var ctors = []ctor{
 func familyConstructors() {
 	fam := run.Family("constructor")
 	rd := enum.NewFragReader(nil, nil, 0, 0)
+	g := run.NewGuard()
 	for _, c := range ctors {
 		t := refmodel.Atom(c.letter)
 		for _, d := range enum.Vals(t) {
 			v := c.mk(d)
-			clause, det, enc, dl := firstFailure(rd, v, fam, deliveries)
+			clause, det, enc, dl := firstFailure(g, rd, v, fam, deliveries)
 			out := "ok"
 			if clause != "" {
 				out = clause
@@ -309,10 +326,16 @@ func listDepth(v value.Value) int {
 func familyLists(depth int) int {
 	fam := run.Family("list")
 	ls := lists(depth)
+	guards := make(chan *enum.Guard, run.Workers+1)
+	for i := 0; i <= run.Workers; i++ {
+		guards <- run.NewGuard()
+	}
 	done, all := run.Parallel(len(ls), func(i int) {
+		g := <-guards
+		defer func() { guards <- g }()
 		rd := enum.NewFragReader(nil, nil, 0, 0)
 		l := ls[i]
-		clause, det, enc, dl := firstFailure(rd, l.v, fam, deliveries)
+		clause, det, enc, dl := firstFailure(g, rd, l.v, fam, deliveries)
 		out := "ok"
 		if clause != "" {
 			out = clause
@@ -415,14 +438,20 @@ func familyOpaque(depth int) (nsigs int, nvals int64) {
 		}
 	}
 	counts := make([]int64, len(comp))
+	guards := make(chan *enum.Guard, run.Workers+1)
+	for i := 0; i <= run.Workers; i++ {
+		guards <- run.NewGuard()
+	}
 	done, all := run.Parallel(len(comp), func(i int) {
+		g := <-guards
+		defer func() { guards <- g }()
 		t := comp[i]
 		rd := enum.NewFragReader(nil, nil, 0, 0)
 		outcomes := map[string]bool{}
 		for _, d := range enum.Vals(t) {
 			counts[i]++
 			v := opaqueOf(d)
-			clause, det, enc, dl := firstFailure(rd, v, fam, opaqueDeliveries)
+			clause, det, enc, dl := firstFailure(g, rd, v, fam, opaqueDeliveries)
 			if clause == "" {
 				outcomes["ok"] = true
 				continue
@@ -471,11 +500,12 @@ func familyOpaqueAtoms() map[string]string {
 	fam := run.Family("opaque-atom")
 	obs := map[string]string{}
 	rd := enum.NewFragReader(nil, nil, 0, 0)
+	g := run.NewGuard()
 	for _, l := range "cCwWiIlLfdbsmo" {
 		t := refmodel.Atom(byte(l))
 		for _, d := range enum.Vals(t) {
 			v := opaqueOf(d)
-			clause, det, enc, dl := firstFailure(rd, v, fam, deliveries)
+			clause, det, enc, dl := firstFailure(g, rd, v, fam, deliveries)
 			out := "ok"
 			if clause != "" {
 				out = clause
@@ -502,7 +532,7 @@ func familyOpaqueAtoms() map[string]string {
 	// composite signatures using the raw atom 'r' of the documented grammar
 	for _, sig := range []string{"[r]", "(r)", "{sr}"} {
 		d := enum.Dist(refmodel.MustParse(sig))
-		clause, det, _, _ := firstFailure(rd, opaqueOf(d), fam, deliveries)
+		clause, det, _, _ := firstFailure(g, rd, opaqueOf(d), fam, deliveries)
 		if clause != "" {
 			obs[sig] = fmt.Sprintf("not decided: the repository's signature parser has no 'r' atom (%s: %s)", clause, det)
 		}
@@ -510,32 +540,42 @@ func familyOpaqueAtoms() map[string]string {
 	return obs
 }
 
+var (
+	nlists, nsigs int
+	nvals         int64
+	obs           map[string]string
+)
+
 func main() {
 	run = enum.NewRun("C02", 40*time.Second, 8*time.Minute)
 	depth := 2
 	if run.Thorough() {
 		depth = 3
 	}
+	finish := func() int {
+		rule := "families: constructor = 13 constructors x Val(T); list = every value.List nested to depth D with 0..2 elements drawn from 11 base values " +
+			"(scalars, string, raw, void, 4 opaque composites) and the lists of the previous depth (at most one nested list per list); " +
+			"opaque = every composite signature of Sig(D,2) x every datum of Val(sig) encoded by the reference model; opaque-atom = 14 atom signatures x Val. " +
+			"Every value is evaluated under 6 deliveries ({data+EOF, EOF separate, 8 sentinel bytes follow} x {unfragmented, 1 byte per read}), opaque composites under 3 (exact buffer with data+EOF; sentinel follows; 1 byte per read with a separate EOF); evaluations counts (value, delivery) pairs. " +
+			"A case class is (family, signature shape with struct names dropped | constructor letter and encoding length | list depth, length and element kinds, outcome); " +
+			"distinct_nontrivial counts the distinct classes executed"
+		extra := map[string]interface{}{
+			"depth": depth, "opaque_composite_signatures": nsigs, "opaque_values": nvals, "list_values": nlists,
+			"deliveries_per_value": len(deliveries), "deliveries_per_opaque_value": len(opaqueDeliveries), "observations_not_decided": obs,
+		}
+		assumptions := []string{
+			"opaque data are produced by the reference model written from doc/about-qimessaging.md; 'r' is taken as count + bytes; 8/16-bit integers as little-endian fixed width",
+			"top-level value.Opaque(\"m\", ...) and value.Opaque(\"o\", ...) are observed but not decided: the statement speaks of composite signatures carried opaquely (NewValue unwraps \"m\" and expands \"o\" to the ObjectReference signature)",
+			"composite signatures containing 'r' or 'X' or 'v' are not enumerated: the repository's signature grammar has no 'r' atom; 'X' has no serialization",
+			"dynamic values nested in opaque data carry i, s, b, C, d, [i], (is), {sI}, v, [s] at nesting level <= 1 and i, s, [i] deeper; a value whose concrete type is itself 'm' is not enumerated",
+			"a decode that does not return within the hang limit (5 executions) is reported as a violation with the clause 'hang' and ends the enumeration",
+		}
+		return run.Finish(rule, true, extra, assumptions)
+	}
+	run.SetAbortFinish(15*time.Second, finish)
 	familyConstructors()
-	obs := familyOpaqueAtoms()
-	nlists := familyLists(depth)
-	nsigs, nvals := familyOpaque(depth)
-
-	rule := "families: constructor = 13 constructors x Val(T); list = every value.List nested to depth D with 0..2 elements drawn from 11 base values " +
-		"(scalars, string, raw, void, 4 opaque composites) and the lists of the previous depth (at most one nested list per list); " +
-		"opaque = every composite signature of Sig(D,2) x every datum of Val(sig) encoded by the reference model; opaque-atom = 14 atom signatures x Val. " +
-		"Every value is evaluated under 6 deliveries ({data+EOF, EOF separate, 8 sentinel bytes follow} x {unfragmented, 1 byte per read}), opaque composites under 3 (exact buffer with data+EOF; sentinel follows; 1 byte per read with a separate EOF); evaluations counts (value, delivery) pairs. " +
-		"A case class is (family, signature shape with struct names dropped | constructor letter and encoding length | list depth, length and element kinds, outcome); " +
-		"distinct_nontrivial counts the distinct classes executed"
-	extra := map[string]interface{}{
-		"depth": depth, "opaque_composite_signatures": nsigs, "opaque_values": nvals, "list_values": nlists,
-		"deliveries_per_value": len(deliveries), "deliveries_per_opaque_value": len(opaqueDeliveries), "observations_not_decided": obs,
-	}
-	assumptions := []string{
-		"opaque data are produced by the reference model written from doc/about-qimessaging.md; 'r' is taken as count + bytes; 8/16-bit integers as little-endian fixed width",
-		"top-level value.Opaque(\"m\", ...) and value.Opaque(\"o\", ...) are observed but not decided: the statement speaks of composite signatures carried opaquely (NewValue unwraps \"m\" and expands \"o\" to the ObjectReference signature)",
-		"composite signatures containing 'r' or 'X' or 'v' are not enumerated: the repository's signature grammar has no 'r' atom; 'X' has no serialization",
-		"dynamic values nested in opaque data carry i, s, b, C, d, [i], (is), {sI}, v, [s] at nesting level <= 1 and i, s, [i] deeper; a value whose concrete type is itself 'm' is not enumerated",
-	}
-	os.Exit(run.Finish(rule, true, extra, assumptions))
+	obs = familyOpaqueAtoms()
+	nlists = familyLists(depth)
+	nsigs, nvals = familyOpaque(depth)
+	os.Exit(finish())
 }
